@@ -3,9 +3,11 @@ package loader
 import (
 	"fmt"
 	"github.com/f1bonacc1/process-compose/src/command"
+	"github.com/f1bonacc1/process-compose/src/health"
 	"github.com/f1bonacc1/process-compose/src/templater"
 	"github.com/f1bonacc1/process-compose/src/types"
 	"github.com/rs/zerolog/log"
+	"maps"
 	"path/filepath"
 )
 
@@ -95,6 +97,13 @@ func cloneReplicas(p *types.Project) {
 			procsToDel = append(procsToDel, name)
 		}
 		for replica := 0; replica < proc.Replicas; replica++ {
+			if proc.Replicas > 1 {
+				// every replica is rendered with its own replica number: it needs its own
+				// probes and variables instead of sharing the objects of the original
+				proc.ReadinessProbe = cloneProbe(proc.ReadinessProbe)
+				proc.LivenessProbe = cloneProbe(proc.LivenessProbe)
+				proc.Vars = maps.Clone(proc.Vars)
+			}
 			proc.ReplicaNum = replica
 			repName := proc.CalculateReplicaName()
 			proc.ReplicaName = repName
@@ -111,6 +120,22 @@ func cloneReplicas(p *types.Project) {
 	for _, proc := range procsToAdd {
 		p.Processes[proc.ReplicaName] = proc
 	}
+}
+
+func cloneProbe(probe *health.Probe) *health.Probe {
+	if probe == nil {
+		return nil
+	}
+	c := *probe
+	if probe.Exec != nil {
+		e := *probe.Exec
+		c.Exec = &e
+	}
+	if probe.HttpGet != nil {
+		h := *probe.HttpGet
+		c.HttpGet = &h
+	}
+	return &c
 }
 
 func assignExecutableAndArgs(p *types.Project) {
